@@ -10,6 +10,7 @@ package vsql
 import (
 	"context"
 	"database/sql"
+	"strings"
 
 	"github.com/nuetzliches/hookaido/internal/verifkit/sched"
 )
@@ -35,6 +36,98 @@ type DB struct {
 	real *sql.DB
 	cap  int
 	busy int
+	file *file
+}
+
+// Statement mode (two store handles on one database file, e.g. the gateway and the MCP server's direct handle): every
+// statement issued outside a write transaction becomes a scheduling point on the shared file object - reads are
+// read accesses, autocommit writes and BEGIN IMMEDIATE need the file's write lock (enabled only while no other
+// connection holds it: the wait SQLite would do in its busy handler is made visible as blocking), COMMIT/ROLLBACK
+// release it. Statements inside a write transaction are not scheduling points: WAL readers on other connections see
+// the pre-transaction snapshot until the commit, so a read scheduled "during" the transaction is equivalent to one
+// scheduled before its BEGIN.
+type file struct {
+	name   string
+	writer *Conn
+}
+
+var stmtPoints bool
+var files = map[string]*file{}
+
+// SetStatementPoints switches statement mode on or off (harness use only) and forgets the known files.
+func SetStatementPoints(on bool) {
+	stmtPoints = on
+	files = map[string]*file{}
+}
+
+func fileOf(dsn string) *file {
+	n := strings.TrimPrefix(dsn, "file:")
+	if i := strings.IndexByte(n, '?'); i >= 0 {
+		n = n[:i]
+	}
+	f := files[n]
+	if f == nil {
+		f = &file{name: n}
+		files[n] = f
+	}
+	return f
+}
+
+const (
+	stRead = iota
+	stWrite
+	stBegin
+	stEnd
+)
+
+func classify(q string) int {
+	t := strings.ToUpper(strings.TrimSpace(q))
+	switch {
+	case strings.HasPrefix(t, "BEGIN"):
+		return stBegin
+	case strings.HasPrefix(t, "COMMIT"), strings.HasPrefix(t, "ROLLBACK"), strings.HasPrefix(t, "END"):
+		return stEnd
+	case strings.HasPrefix(t, "SELECT"), strings.HasPrefix(t, "WITH") && !strings.Contains(t, "UPDATE ") && !strings.Contains(t, "DELETE ") && !strings.Contains(t, "INSERT "):
+		return stRead
+	}
+	return stWrite
+}
+
+// stmt is called before a statement runs on connection c (nil = a pooled autocommit statement of d); the returned
+// function runs after it with the statement's error.
+func (d *DB) stmt(c *Conn, q string) func(error) {
+	nop := func(error) {}
+	if !stmtPoints || !sched.Active() || d.file == nil {
+		return nop
+	}
+	f := d.file
+	kind := classify(q)
+	if c != nil && f.writer == c {
+		if kind == stEnd {
+			return func(error) { f.writer = nil; sched.Released(f) }
+		}
+		return nop
+	}
+	switch kind {
+	case stBegin:
+		if c == nil {
+			return nop
+		}
+		sched.Point(sched.OpLock, f, func() bool { return f.writer == nil })
+		f.writer = c
+		sched.Acquired(f, true)
+		return func(err error) {
+			if err != nil && f.writer == c {
+				f.writer = nil
+				sched.Released(f)
+			}
+		}
+	case stRead:
+		sched.PointR(sched.OpRLock, f, nil)
+	default:
+		sched.Point(sched.OpLock, f, func() bool { return f.writer == nil })
+	}
+	return nop
 }
 
 func Open(driver, dsn string) (*DB, error) {
@@ -42,7 +135,11 @@ func Open(driver, dsn string) (*DB, error) {
 	if err != nil {
 		return nil, err
 	}
-	return &DB{real: db, cap: 0}, nil
+	d := &DB{real: db, cap: 0}
+	if stmtPoints {
+		d.file = fileOf(dsn)
+	}
+	return d, nil
 }
 
 // Real exposes the wrapped handle (harness use only).
@@ -54,6 +151,7 @@ func (d *DB) acquire() {
 	}
 	sched.Point(sched.OpConn, d, func() bool { return d.cap <= 0 || d.busy < d.cap })
 	d.busy++
+	sched.Acquired(d, true)
 }
 
 func (d *DB) release() {
@@ -63,6 +161,7 @@ func (d *DB) release() {
 	if d.busy > 0 {
 		d.busy--
 	}
+	sched.Released(d)
 }
 
 func (d *DB) Close() error             { return d.real.Close() }
@@ -79,7 +178,10 @@ func (d *DB) PingContext(ctx context.Context) error {
 func (d *DB) ExecContext(ctx context.Context, q string, args ...any) (Result, error) {
 	d.acquire()
 	defer d.release()
-	return d.real.ExecContext(ctx, q, args...)
+	after := d.stmt(nil, q)
+	res, err := d.real.ExecContext(ctx, q, args...)
+	after(err)
+	return res, err
 }
 
 func (d *DB) Exec(q string, args ...any) (Result, error) {
@@ -88,6 +190,7 @@ func (d *DB) Exec(q string, args ...any) (Result, error) {
 
 func (d *DB) QueryContext(ctx context.Context, q string, args ...any) (*Rows, error) {
 	d.acquire()
+	d.stmt(nil, q)
 	r, err := d.real.QueryContext(ctx, q, args...)
 	if err != nil {
 		d.release()
@@ -102,6 +205,7 @@ func (d *DB) Query(q string, args ...any) (*Rows, error) {
 
 func (d *DB) QueryRowContext(ctx context.Context, q string, args ...any) *Row {
 	d.acquire()
+	d.stmt(nil, q)
 	return &Row{real: d.real.QueryRowContext(ctx, q, args...), db: d}
 }
 
@@ -126,6 +230,11 @@ type Conn struct {
 }
 
 func (c *Conn) Close() error {
+	if f := c.db.file; f != nil && f.writer == c {
+		// a connection closed inside a write transaction: database/sql rolls it back
+		f.writer = nil
+		sched.Released(f)
+	}
 	err := c.real.Close()
 	if !c.closed {
 		c.closed = true
@@ -135,10 +244,14 @@ func (c *Conn) Close() error {
 }
 
 func (c *Conn) ExecContext(ctx context.Context, q string, args ...any) (Result, error) {
-	return c.real.ExecContext(ctx, q, args...)
+	after := c.db.stmt(c, q)
+	res, err := c.real.ExecContext(ctx, q, args...)
+	after(err)
+	return res, err
 }
 
 func (c *Conn) QueryContext(ctx context.Context, q string, args ...any) (*Rows, error) {
+	c.db.stmt(c, q)
 	r, err := c.real.QueryContext(ctx, q, args...)
 	if err != nil {
 		return nil, err
@@ -147,6 +260,7 @@ func (c *Conn) QueryContext(ctx context.Context, q string, args ...any) (*Rows, 
 }
 
 func (c *Conn) QueryRowContext(ctx context.Context, q string, args ...any) *Row {
+	c.db.stmt(c, q)
 	return &Row{real: c.real.QueryRowContext(ctx, q, args...)}
 }
 
